@@ -39,11 +39,30 @@ const deadline = 2 * time.Second
 
 // ---------- Coq printers ----------
 
+// str emits plain identifiers as Coq string literals (much cheaper to elaborate
+// than byte lists); anything else falls back to vh.Str.
+func str(x string) string {
+	for i := 0; i < len(x); i++ {
+		c := x[i]
+		if !(c >= '0' && c <= '9' || c >= 'a' && c <= 'z' || c >= 'A' && c <= 'Z' || c == '_' || c == '-') {
+			return vh.Str(x)
+		}
+	}
+	return "\"" + x + "\"%string"
+}
+func strList(xs []string) string {
+	it := make([]string, len(xs))
+	for i, x := range xs {
+		it[i] = str(x)
+	}
+	return vh.List(it)
+}
+
 func zmap(m map[string]int) string {
 	ks := vh.SortedKeys(m)
 	it := make([]string, len(ks))
 	for i, k := range ks {
-		it[i] = vh.Pair(vh.Str(k), vh.Z(int64(m[k])))
+		it[i] = "(kz " + str(k) + " " + vh.Z(int64(m[k])) + ")"
 	}
 	return vh.List(it)
 }
@@ -51,7 +70,7 @@ func zmap64(m map[string]int64) string {
 	ks := vh.SortedKeys(m)
 	it := make([]string, len(ks))
 	for i, k := range ks {
-		it[i] = vh.Pair(vh.Str(k), vh.Z(m[k]))
+		it[i] = "(kz " + str(k) + " " + vh.Z(m[k]) + ")"
 	}
 	return vh.List(it)
 }
@@ -59,7 +78,7 @@ func smap(m map[string]string) string {
 	ks := vh.SortedKeys(m)
 	it := make([]string, len(ks))
 	for i, k := range ks {
-		it[i] = vh.Pair(vh.Str(k), vh.Str(m[k]))
+		it[i] = "(ks " + str(k) + " " + str(m[k]) + ")"
 	}
 	return vh.List(it)
 }
@@ -86,7 +105,7 @@ func coqReason(msg string) string {
 func coqPlans(ps []*ctypes.CPUPlan) string {
 	it := make([]string, len(ps))
 	for i, p := range ps {
-		it[i] = vh.Pair(vh.Str(p.NUMANode), zmap(p.CPUMap))
+		it[i] = "(tp " + str(p.NUMANode) + " " + zmap(p.CPUMap) + ")"
 	}
 	return vh.List(it)
 }
@@ -549,7 +568,7 @@ func runPlans(t *testing.T) {
 		}
 		order := numaOrder(c.info, tags)
 		term := fmt.Sprintf("(mkP %s %s %s %s %s %s %s %s %s)", coqNI(c.info), zmap(c.origin), vh.ZI(c.base), vh.ZI(c.maxFrag),
-			vh.F64(c.cpu), vh.Z(c.mem), vh.StrList(order), vh.Z(c.k), obs)
+			vh.F64(c.cpu), vh.Z(c.mem), strList(order), vh.Z(c.k), obs)
 		desc := map[string]any{"stream": stream, "label": c.label, "capacity": c.info.Capacity, "usage": c.info.Usage, "origin": c.origin,
 			"share_base": c.base, "max_fragment_cores": c.maxFrag, "cpu_request": c.cpu, "memory_request": c.mem,
 			"outcome": class, "panic": o.panicMsg, "plans": o.val, "numa_order": order}
@@ -666,11 +685,11 @@ func errClass(err error) string {
 }
 
 func coqEP(e *ctypes.EngineParams) string {
-	return fmt.Sprintf("(mkEP %s %s %s %s %s)", vh.F64(e.CPU), zmap(e.CPUMap), vh.Str(e.NUMANode), vh.Z(e.Memory), vh.Bool(e.Remap))
+	return fmt.Sprintf("(mkEP %s %s %s %s %s)", vh.F64(e.CPU), zmap(e.CPUMap), str(e.NUMANode), vh.Z(e.Memory), vh.Bool(e.Remap))
 }
 func coqWR(w *ctypes.WorkloadResource) string {
 	return fmt.Sprintf("(mkWR %s %s %s %s %s %s %s)", vh.F64(w.CPURequest), vh.F64(w.CPULimit), vh.Z(w.MemoryRequest), vh.Z(w.MemoryLimit),
-		zmap(w.CPUMap), zmap64(w.NUMAMemory), vh.Str(w.NUMANode))
+		zmap(w.CPUMap), zmap64(w.NUMAMemory), str(w.NUMANode))
 }
 
 type deployObs struct {
@@ -823,7 +842,7 @@ func runDeploy(t *testing.T) {
 		// only reports the number of plans, which does not depend on the order
 		order := numaOrder(c.info, tags)
 		term := fmt.Sprintf("(mkD %s %s %s %s %s %s %s %s %s)", coqNI(c.info), vh.ZI(c.base), vh.ZI(c.maxShare), vh.ZI(c.count),
-			coqReq(parsed), vh.StrList(order), vh.Z(c.k), obs, capTerm)
+			coqReq(parsed), strList(order), vh.Z(c.k), obs, capTerm)
 		desc := map[string]any{"label": c.label, "capacity": c.info.Capacity, "usage": c.info.Usage, "share_base": c.base, "max_share": c.maxShare,
 			"count": c.count, "request": c.raw, "outcome": class, "panic": do.panicMsg, "capacity_outcome": capClass, "capacity_panic": co.panicMsg,
 			"workloads": do.val.ws, "numa_order": order}
